@@ -23,7 +23,9 @@ def srcBlkViews : List (String × (Bool → Frag → Rd.R) × Codec × (Val → 
   ("BlockCreateStats", SrcBlk.BlockCreateStats, blockCreateStats, Blk.view_BlockCreateStats),
   ("ConfigParams", SrcBlk.ConfigParams, configParams, Blk.view_ConfigParams),
   ("McStateExtra", SrcBlk.McStateExtra, mcStateExtra, Blk.view_McStateExtra),
-  ("ShardStateUnsplit", SrcBlk.ShardStateUnsplit, shardStateUnsplit, Blk.view_ShardStateUnsplit)]
+  ("ShardStateUnsplit", SrcBlk.ShardStateUnsplit, shardStateUnsplit, Blk.view_ShardStateUnsplit),
+  ("McBlockExtra", SrcBlk.McBlockExtra, mcBlockExtra, Blk.view_McBlockExtra),
+  ("ShardState", SrcBlk.ShardState, shardState, Blk.view_ShardState)]
 
 /-- `tlbsrcblk <Class> <dag> <node>` → `ok <value json> <remaining bits> <remaining refs>` | `none` :
     the regenerated reader of the class run on that cell -/
